@@ -90,7 +90,7 @@ RuleOf(h, ls) == [head |-> Heads[h].head, distinct |-> Heads[h].distinct, body |
 ProgOf(d, rs) ==
   [preds |-> << [name |-> "E", rules |-> DBs[d], inline |-> FALSE, order |-> <<>>, limit |-> -1],
                 [name |-> "P", rules |-> rs, inline |-> FALSE, order |-> <<>>, limit |-> -1] >>,
-   rec |-> <<>>, makes |-> <<>>, annpreds |-> <<>>]
+   rec |-> <<>>, makes |-> <<>>, annpreds |-> <<>>, reserved |-> <<>>]
 
 Ctx0 == [preds |-> PredMap(ProgOf(1, <<>>)), db |-> EmptyDb, dev |-> {}]
 
